@@ -159,7 +159,7 @@ def rule_replace(ctx, prop):
         for p, sd in missing:
             if prog.fn("stylua_lib", p) is None:
                 rep.anchor(False, f"{p} (frozen R-REPLACE function no longer exists)", cfg)
-        rep.floor("Replace sites in comment-moving functions", n, 15, cfg)
+        rep.floor("Replace sites in comment-moving functions", n, 8, cfg)
     return rep
 
 
